@@ -21,7 +21,11 @@ RULE = ('Hypothesis: type 0/1 files, ticks_per_beat from {1,2,24,96,480,32767} a
         '(metas filtered unless requested), never before its scheduled time, and the recorded sleep calls equal a '
         'simulation of "sleep exactly the remaining time" (no drift); second2tick(tick2second(t)) == t. Non-trivial = a '
         'set_tempo != 500000 at tick > 0 followed by a positive delta (iter) / a consumer delay longer than the following '
-        'gap and a later gap long enough to catch up (play); distinct by hash.')
+        'gap and a later gap long enough to catch up (play); distinct by hash.'
+        ' Later additions: notation/routing meta events in the files (time signatures other than x/4 etc.), an'
+        ' observation nested in a running iteration, length after an in-place edit, a consumer editing yielded'
+        ' messages, two threads iterating different files under the deterministic scheduler (one or two close'
+        ' preemptions in units.py / midifiles.py / tracks.py).')
 ASSUMPTIONS = ['floating point tolerance: relative 1e-12 per message (measured error <= 2.5e-16), 1e-9 for sums',
                'time.sleep as seen by mido.midifiles.midifiles is replaced by a fake; no wall clock is read']
 
